@@ -150,7 +150,7 @@ def main():
         if job.get('align_second'):
             # every job derives the same start time from the barrier files: just after a whole second
             files = [os.path.join(job['barrier'], x) for x in os.listdir(job['barrier']) if x.startswith('ready_')]
-            target = int(max(os.path.getmtime(x) for x in files)) + 2 + 0.05
+            target = int(max(os.path.getmtime(x) for x in files)) + 4 + 0.05
             import cell_type_mapper.validation.validate_h5ad  # noqa: F401  (import cost before the wait)
             while time.time() < target:
                 pass
